@@ -18,6 +18,7 @@ EXPLANATION = (
     "current_tick = Some(t) for an absolute marker is dominated by the `previous >= t` false edge; inline deltas use checked_add.  "
     "R1d: every header kind is built under the exact flag / version conditions (TICKMARKER, INLINETICK, KEYFRAME, legacy masks) and the writer asserts exactly version >= V5, dt <= max_tick_delta, !keyframe.  R1c: the writer's largest inline tick delta per format version equals the mask the reader applies for that version.  R2b: a refused write_snap leaves the writer untouched (every write to *self lies behind the pass edge of the tick test).  Not decided: the round trip of chunk sequences / typed object sets (value level)."
 )
+EXPLANATION += ('  Round 4: R3 accepts either orientation of the tick comparison and requires that no RawChunk::Tick is built on a path without a store to current_tick.')
 ASSUMPTIONS = [
     "reviewed table lines confirmed by reading the code",
     "binrw-generated readers do not panic on short input (they return Err)",
